@@ -246,7 +246,9 @@ class Handle:
         return out
 
     # -- operations ----------------------------------------------------------------------------
-    OPS = ["route", "route_keyed", "retrieve", "count", "set_status", "set_result", "sb_result", "sb_exception", "heartbeat",
+    neighbour: "Handle | None" = None      # another application living in the same process / database file
+
+    OPS = ["route", "route_inside", "route_keyed", "retrieve", "count", "set_status", "set_result", "sb_result", "sb_exception", "heartbeat",
            "store_rctx", "wf_data", "wait", "cds_store", "reg_trigger", "emit", "cron", "cron_tick", "claim", "trigger_loop",
            "purge_broker", "purge_orchestrator", "purge_state_backend", "purge_trigger", "purge_client_data_store", "purge_app"]
 
@@ -260,6 +262,21 @@ class Handle:
         try:
             if op == "route":
                 self.invs.append(self.t_add(arg, 1))
+                return f"inv#{len(self.invs) - 1}"
+            if op == "route_inside":
+                # the call is made from INSIDE a running invocation of the neighbouring application (a task of one application calling a
+                # task of another): that invocation is the neighbour's business - here the call has no parent and starts its own workflow
+                from pynenc import context
+
+                nb = self.neighbour
+                if nb is None or not nb.invs:
+                    self.invs.append(self.t_add(arg, 1))
+                    return f"inv#{len(self.invs) - 1}"
+                prev = context.swap_dist_invocation_context(nb.app.app_id, nb.invs[arg % len(nb.invs)])
+                try:
+                    self.invs.append(self.t_add(arg, 1))
+                finally:
+                    context.swap_dist_invocation_context(nb.app.app_id, prev)
                 return f"inv#{len(self.invs) - 1}"
             if op == "route_keyed":
                 self.invs.append(self.t_keyed(f"k{arg}"))
@@ -424,6 +441,9 @@ class Handle:
                 "exception": g(lambda: repr(sb.get_exception(iid))),
                 "history": g(lambda: [(h.status_record.status.value, h.status_record.runner_id) for h in sb.get_history(iid)]),
                 "stored": g(lambda: (lambda d: (str(d.call.task.task_id), sorted(d.call.serialized_arguments.items())))(sb.get_invocation(iid))),
+                # who launched it and which workflow it belongs to, as stored
+                "lineage": g(lambda: (lambda d: (d.parent_invocation_id, str(d.workflow.workflow_id), str(getattr(d.workflow, "parent_workflow_id", None)),
+                                                 [h.registered_by_inv_id for h in sb.get_history(iid)]))(sb.get_invocation(iid))),
             }
         out["invocations"] = invs
         for t in (self.t_add, self.t_keyed):
